@@ -175,6 +175,7 @@ def check_history(rep, unit, count, ops, max_read=None):
                 dict(replay, first_difference=i))
             if sig != 'S4-wrapper-renumber':
                 return
+            rep.count('S4-observed-history')
             break
         # track drops on the reference side (mark set more than B octets after the current base)
         if ops[i][0] == 'm':
@@ -568,6 +569,7 @@ def check_kinds(rep, rng, cdc, ts, t, spec, data, label):
         if same:
             continue
         if name in NONSEEKABLE and region[0]:
+            rep.count('S4-observed-' + name)
             rep.fail('S4-wrapper-renumber',
                      '%s, %d octets, drop at %s inside a definite-length container: as bytes -> %s, from a %s stream -> %s' % (
                          label, len(data), region[1][:3], short(ref), name, short(got)),
@@ -605,7 +607,7 @@ def large_cases(rng, n):
     out = []
     for i in range(n):
         size = rng.choice([B - 20, B, B + 1, B + 300, 2 * B, 2 * B + 7, 3 * B, 5 * B])
-        shape = rng.choice(['big-string', 'wide', 'wide-small', 'deep', 'record', 'two-level'])
+        shape = rng.choice(['big-string', 'wide', 'wide-small', 'deep', 'record', 'two-level', 'any-after-big'])
         if shape == 'big-string':
             t = ('str', 4)
             v = ('s', pattern(size, i))
@@ -628,6 +630,10 @@ def large_cases(rng, n):
                          ('r', None, ('tag', 'e', 'c', 5, ('str', 4)))])
             v = ('seq', [('s', pattern(size // 2, i)), ('i', 77), ('of', [('i', j) for j in range(50)]),
                          ('s', pattern(size // 2, i + 1))])
+        elif shape == 'any-after-big':
+            # AnyPayloadDecoder goes back to the mark: right after a cache drop on a non-seekable stream
+            t = ('seq', [('r', None, ('str', 4)), ('r', None, ('any',)), ('r', None, ('tag', 'e', 'c', 1, ('any',)))])
+            v = ('seq', [('s', pattern(size, i)), ('any', bytes.fromhex('0203010001')), ('any', bytes.fromhex('0101ff'))])
         else:
             t = ('seqof', ('seq', [('r', None, ('int',)), ('r', None, ('str', 4))]))
             v = ('of', [('seq', [('i', j), ('s', pattern(200, j))]) for j in range(size // 200 + 1)])
@@ -639,7 +645,7 @@ def large_cases(rng, n):
 
 def decode_cases(rep, rng, n_small, n_large):
     # small generated values, all encoder modes; plus damaged variants of each
-    for case in engine.gen_cases(rng, n_small, max_depth=2):
+    for case in engine.gen_cases(rng, n_small, max_depth=2, allow_any=True):
         if not engine.representable(case):
             continue
         mode = rng.choice([('ber', True, 0), ('ber', False, 0), ('ber', False, 3), ('cer', False, 1000), ('der', True, 0)])
@@ -815,10 +821,10 @@ def run(rep, tier, seed):
         rep.case('corpus raw ' + label)
         check_kinds(rep, rng, cdc, ts, None, None, bytes.fromhex(hx), label)
     check_unsupported(rep)
-    histories(rep, rng, 400 if quick else 12000)
-    growing_histories(rep, rng, 400 if quick else 12000)
-    check_helpers(rep, rng, 60 if quick else 1500)
-    decode_cases(rep, rng, 260 if quick else 7000, 60 if quick else 1500)
+    histories(rep, rng, 800 if quick else 16000)
+    growing_histories(rep, rng, 800 if quick else 16000)
+    check_helpers(rep, rng, 100 if quick else 2000)
+    decode_cases(rep, rng, 400 if quick else 8000, 100 if quick else 2000)
     rep.extra['driver_requests'] = drv.n
     drv.close()
 
